@@ -18,6 +18,17 @@ theorem C05_ampcons (pc : Bool) (rises decays : List Rat) (hlen : rises.length =
         if c = 0 ∨ c + 1 = rises.length then F.nan else ampConsSpec (flankSeq pc rises decays) c) :=
   ampConsistency_eq_spec pc rises decays hlen hn
 
+/-- the directional variants (direction = 'next' / 'last', used by edge recomputation) likewise. -/
+theorem C05_ampcons_dir (pc : Bool) (dir : Direction) (rises decays : List Rat)
+    (hlen : rises.length = decays.length) (hn : 0 < rises.length) :
+    ampConsistency pc dir rises decays =
+      .ok ((List.range rises.length).map fun c =>
+        if c = 0 ∨ c + 1 = rises.length then F.nan else ampConsSpecDir dir (flankSeq pc rises decays) c) :=
+  ampConsistency_dir_eq_spec pc dir rises decays hlen hn
+
+theorem C05_ampcons_dir_both (fl : List Rat) (c : Nat) : ampConsSpecDir .both fl c = ampConsSpec fl c :=
+  ampConsSpecDir_both fl c
+
 theorem C05_flank_sequence (pc : Bool) (rises decays : List Rat) (c : Nat) (hc : c < rises.length) :
     (flankSeq pc rises decays).getD (2 * c) 0 = (if pc then rises.getD c 0 else decays.getD c 0) ∧
     (flankSeq pc rises decays).getD (2 * c + 1) 0 = (if pc then decays.getD c 0 else rises.getD c 0) :=
